@@ -211,11 +211,8 @@ func (s *udpServer) handleReq(m *dnsmsg.Msg, rc *RequestContext, oobAddr netip.A
 
 	// Determine the client udp size. Try to find edns0.
 	clientUdpSize := 0
-	for _, r := range m.Additionals {
-		hdr := r.Hdr()
-		if hdr.Type == dnsmsg.TypeOPT {
-			clientUdpSize = int(hdr.Class)
-		}
+	if hdr := queryOpt(m); hdr != nil {
+		clientUdpSize = int(hdr.Class)
 	}
 	if clientUdpSize < 512 {
 		clientUdpSize = 512
